@@ -257,8 +257,9 @@ func (e *engine) confirmSuspects() {
 		return
 	}
 	e.rep.Hist["watchdog-hits-first-pass"] += len(s)
-	if len(s) > 40 {
-		s = s[:40]
+	if len(s) > 5000 { // bounded; what is dropped is visible in the evidence
+		e.rep.Hist["suspects-not-confirmed(dropped)"] += len(s) - 5000
+		s = s[:5000]
 	}
 	e.farm(1, func(emit func(job)) {
 		for _, c := range s {
